@@ -49,7 +49,7 @@ func (l *Lexer) scanLineStart() Token {
 		return l.scanComment()
 	}
 
-	if l.isWhitespace(l.peek()) && l.peek() != '\n' {
+	if l.isWhitespace(l.peek()) && !l.atLineEnd() {
 		return l.scanIndent()
 	}
 
@@ -75,7 +75,7 @@ func (l *Lexer) scanInLine() Token {
 	r := l.peekRune()
 
 	switch {
-	case ch == '\n':
+	case l.atLineEnd():
 		return l.scanNewline()
 	case ch == ';':
 		return l.scanComment()
@@ -158,7 +158,7 @@ func (l *Lexer) scanCode() Token {
 	l.advance()
 
 	start := l.pos
-	for l.pos < len(l.input) && l.peek() != ')' && l.peek() != '\n' {
+	for l.pos < len(l.input) && l.peek() != ')' && !l.atLineEnd() {
 		l.advance()
 	}
 	value := l.input[start:l.pos]
@@ -175,7 +175,7 @@ func (l *Lexer) scanComment() Token {
 	l.advance()
 
 	start := l.pos
-	for l.pos < len(l.input) && l.peek() != '\n' {
+	for l.pos < len(l.input) && !l.atLineEnd() {
 		l.advance()
 	}
 
@@ -187,7 +187,7 @@ func (l *Lexer) scanIndent() Token {
 	start := l.pos
 	startPos := l.position()
 
-	for l.pos < len(l.input) && l.isWhitespace(l.peek()) && l.peek() != '\n' {
+	for l.pos < len(l.input) && l.isWhitespace(l.peek()) && !l.atLineEnd() {
 		l.advance()
 	}
 
@@ -195,8 +195,12 @@ func (l *Lexer) scanIndent() Token {
 	return Token{Type: TokenIndent, Value: value, Pos: startPos, End: l.position()}
 }
 
+// scanNewline consumes a line end, "\n" or "\r\n", as one token.
 func (l *Lexer) scanNewline() Token {
 	startPos := l.position()
+	if l.peek() == '\r' {
+		l.advance()
+	}
 	l.advance()
 	l.line++
 	l.column = 1
@@ -301,7 +305,7 @@ func (l *Lexer) scanQuotedCommodity() Token {
 	l.advance()
 
 	start := l.pos
-	for l.pos < len(l.input) && l.peek() != '"' && l.peek() != '\n' {
+	for l.pos < len(l.input) && l.peek() != '"' && !l.atLineEnd() {
 		l.advance()
 	}
 	value := l.input[start:l.pos]
@@ -413,7 +417,7 @@ func (l *Lexer) scanText() Token {
 
 	for l.pos < len(l.input) {
 		ch := l.peek()
-		if ch == '\n' || ch == ';' || ch == '|' {
+		if l.atLineEnd() || ch == ';' || ch == '|' {
 			break
 		}
 		l.advance()
@@ -428,6 +432,13 @@ func (l *Lexer) peek() byte {
 		return 0
 	}
 	return l.input[l.pos]
+}
+
+// atLineEnd reports whether the lexer stands at a line end: "\n", or "\r\n" (a carriage
+// return that is not followed by a line feed is an ordinary character).
+func (l *Lexer) atLineEnd() bool {
+	ch := l.peek()
+	return ch == '\n' || (ch == '\r' && l.pos+1 < len(l.input) && l.input[l.pos+1] == '\n')
 }
 
 func (l *Lexer) peekRune() rune {
